@@ -25,12 +25,17 @@ var (
 	flagList     = flag.Bool("list", false, "list properties, rules and controls")
 	flagVerbose  = flag.Bool("v", false, "print every obligation")
 	flagNoCtl    = flag.Bool("nocontrols", false, "skip positive controls")
+	flagDump     = flag.String("dump", "", "debug: effects | roots | reach")
 )
 
 func main() {
 	flag.Parse()
 	if *flagList {
 		listAll()
+		return
+	}
+	if *flagDump != "" {
+		dump(*flagDump)
 		return
 	}
 	if *flagControl != "" {
